@@ -57,6 +57,8 @@ def splice(text, start_marker, end_marker, body):
 
 
 t81, t82, t12, nfixed, nopen, nseeded = findings_tables()
+nfix = len([l for l in subprocess.run("git -C /repo log --format=%s", shell=True, capture_output=True, text=True).stdout.splitlines() if l.startswith("fix:")])
+out[0] = out[0].replace("{N_FIXED}", str(nfixed)).replace("{N_FIX}", str(nfix)).replace("{N_OPEN}", str(nopen)).replace("{N_SEEDED}", str(nseeded))
 for part in ["60_hooks_trust.md", "80_findings.md", "90_limits_log.md"]:
     txt = open(os.path.join(V, "design.src", part)).read()
     if part == "80_findings.md":
